@@ -740,6 +740,25 @@ def gen_scaling(g):
                 c = Case("scaling", "SC %s %s %s %d" % (entry, bo, elem, n * mult), n * mult, expect="ok", note="scaling %s %s x%d" % (entry, elem, mult))
                 c.sc = (entry, elem, mult)
                 cases.append(c)
+    # header field arrays with n, 2n, 4n, 8n FIELDS of 8 bytes each (the arrays above are one field): the same known field again and
+    # again (REPLY_SERIAL: the duplicate is refused, but only after all fields were decoded), small unknown fields (skipped one by
+    # one: accepted), and both in turn. Behind PATH and MEMBER, which end 6 bytes before a multiple of 8.
+    n = 12500 * (2 if g.thorough else 1)
+    for kind, want in (("known", "err"), ("unknown", "ok"), ("mixed", "err")):
+        bo = g.r.choice(["le", "be"])
+
+        def fld(i):
+            if kind == "known" or (kind == "mixed" and i % 2 == 0):
+                return bytes([5, 1, ord("u"), 0]) + u32(bo, 9 + i)
+            return bytes([60 + i % 190, 1, ord("y"), 0, i % 256, 0, 0, 0])
+        for mult in (1, 2, 4, 8):
+            fl = b"".join(fld(i) for i in range(n * mult))
+            if fl.endswith(b"\x00\x00\x00") and fl[-8] != 5:
+                fl = fl[:-3]            # the array ends with its last field: no padding behind the last (unknown, 5 byte) one
+            m = header_bytes(bo, "", b"", fields=[(1, "o", b"/p"), (3, "s", b"M")], extra=b"\x00" * 6 + fl)
+            c = Case("scaling", "HD %d %s" % (g.phase(), hx(m)), len(m), expect=want, note="scaling: header with %d %s fields of 8 bytes (x%d)" % (n * mult, kind, mult))
+            c.sc = ("hdfields", kind, mult)
+            cases.append(c)
     return cases
 
 
@@ -748,7 +767,7 @@ def judge_scaling(ctx, cases, results, exe, build):
     found = []
     groups = {}
     for c, r in zip(cases, results):
-        if getattr(c, "sc", None) and r.status == "ok":
+        if getattr(c, "sc", None) and r.status == c.expect:
             groups.setdefault(c.sc[:2], {})[c.sc[2]] = (c, r)
 
     def excess(r1, r8):
@@ -769,9 +788,9 @@ def judge_scaling(ctx, cases, results, exe, build):
         why = excess(r1, r8)
         if why:
             again = [Res(vlib.run_lines(exe, ["run"], [c.line], timeout=300, env={"VERIF_SCRATCH": SOCKS, "C04_DEADLINE_MS": "60000"})[1][0]) for c in (c1, c8)]
-            why = excess(again[0], again[1]) if all(a.status == "ok" for a in again) else ["re-run: " + " / ".join(a.raw[:80] for a in again)]
+            why = excess(again[0], again[1]) if all(a.status == c1.expect for a in again) else ["re-run: " + " / ".join(a.raw[:80] for a in again)]
             if why:
-                found.append((1, "SC %s %s [%s build]: more than linear in the input length: %s (alone, twice)" % (key[0], key[1], build, "; ".join(why)),
+                found.append((1, "scaling %s %s [%s build]: more than linear in the input length: %s (alone, twice)" % (key[0], key[1], build, "; ".join(why)),
                               violation_data(c8, again[1], build)))
     ctx.extra["scaling_ratios_8n_over_n[time,heap]"] = ratios
     return found
